@@ -1167,10 +1167,26 @@ def _might_have_parameter(fn_or_cls, arg_name):
 
   while hasattr(fn, '__wrapped__'):
     fn = fn.__wrapped__
+  if fn is object.__init__:  # The class defines no constructor: no parameters.
+    return False
   arg_spec = _get_cached_arg_spec(fn)
   if arg_spec.varkw:  # pytype: disable=attribute-error
     return True
-  return arg_name in arg_spec.args or arg_name in arg_spec.kwonlyargs  # pytype: disable=attribute-error
+  # Gin supplies values by keyword: the implicit first parameter of a constructor
+  # (`self`/`cls`) and positional-only parameters can't be supplied that way.
+  arg_names = arg_spec.args  # pytype: disable=attribute-error
+  if inspect.isclass(fn_or_cls):  # pytype: disable=wrong-arg-types
+    arg_names = arg_names[1:]
+  try:
+    parameters = inspect.signature(fn).parameters.values()
+  except (TypeError, ValueError):  # No signature available (some builtins).
+    parameters = ()
+  positional_only = [
+      p.name for p in parameters if p.kind == inspect.Parameter.POSITIONAL_ONLY
+  ]
+  if arg_name in positional_only:
+    return False
+  return arg_name in arg_names or arg_name in arg_spec.kwonlyargs  # pytype: disable=attribute-error
 
 
 def _validate_parameters(fn_or_cls, arg_name_list, err_prefix):
